@@ -21,7 +21,7 @@ GEN = os.path.join(VERIF, "coq", "gen", "OwnGraph.v")
 WORK = os.path.join(vlib.BUILD, "c17")
 VARIANTS = ["ipc", "local", "ipc_threadsafe", "local_threadsafe"]
 NSLOTS = {("pubsub", 1): 6, ("pubsub", 2): 8, ("event", 1): 4, ("event", 2): 6, ("reqres", 1): 7, ("reqres", 2): 8,
-          ("blackboard", 1): 6, ("blackboard", 2): 8, ("reqres2", 1): 9, ("rrovf", 1): 8, ("ps2", 1): 7}
+          ("blackboard", 1): 6, ("blackboard", 2): 8, ("reqres2", 1): 9, ("rrovf", 1): 8, ("ps2", 1): 7, ("openfail", 1): 4}
 
 # Candidate defects of /repo found by this check and reported to the lead, who decides between a
 # fix: commit in /repo and an entry in known_findings.json (matched by the same key).  Until then
@@ -175,6 +175,11 @@ def jobs_for(ctx, exe):
         for p, nn, order in (("ps2", 1, "2,3,0,1,4,5,6"), ("rrovf", 1, "3,4,0,1,2,5,6,7"), ("reqres2", 1, "6,3,8,7,0,1,2,4,5"), ("reqres2", 1, "3,8,7,0,1,2,4,5,6"), ("pubsub", 1, "3,0,1,2,4,5"), ("event", 1, "0,1,2,3")):
             jobs.append(("perm:%s:%s:%s" % (v, p, order), [exe, "perm", v, p, str(nn), order]))
             plan["regressions"].append("%s %s %s" % (v, p, order))
+    # a REJECTED open (service created with max_nodes(1), a second node's open() refused): all 24 orders of
+    # node_a, svc, node_b, publisher; nothing of the failed open may stay (no service tag, node_b's directory removable)
+    for v in (VARIANTS if th else ("ipc", "local")):
+        exh(v, "openfail", 1, 1)
+        plan["exhaustive"].append("%s openfail (24)" % v)
     # request-response with two requests of one client in flight: the server side (server, active_a, active_b) is dropped
     # first in each of its 6 orders, followed by client-side orders; plus unrestricted random orders of the 9 slots
     if not th:
